@@ -63,6 +63,18 @@ CLAIMED.update({
             "acceptance tests are tied to independent references by C01/C05/C07/C09/C11; ref/pda.py for the closure-size precondition"),
 })
 
+CLAIMED.update({
+    "C15": ("simulation rows / derivations validated by independent step checkers; a run for exactly the accepted words; termination by deterministic line-event budget",
+            "generated DFAs, NFAs (eps chains, cycles, chord shape), PDAs (closure limit 20) x all words up to length 3-5; CNF grammars x generated words x {leftmost, rightmost}",
+            "ref/fa.py, ref/pda.py, ref/cfg.py; termination: 60000 (NFA) / 400000 (PDA) line events, escalated x5 once per function"),
+    "C16": ("round trip print -> parse compared field by field with the spec; regexps: same language (exact) and identical printed form; grammars: own comparison and CFG.__eq__",
+            "generated representable DFA/NFA/PDA/TM specs, expression trees (three printers; exhaustive <= 5-6 nodes) and simple-format grammars",
+            "ref/text.py canon, ref/regex.py; printable eps/blank; single-character symbols"),
+    "C17": ("independent renderer in generated layouts -> parser -> field-wise comparison; every single-fault corruption must raise; token soup: returned objects satisfy own class-invariant predicates",
+            "generated specs of the four kinds x layouts (omissions only where derivable / documented defaults) x corruption classes named by the property x perturbed and assembled texts",
+            "ref/text.py (renderer, omission rules, corruptions); 'rejected' = any exception"),
+})
+
 NOT_YET = {
 }
 
